@@ -1,5 +1,6 @@
 import AmVerif.Proofs.PatchDiff
 import AmVerif.Proofs.PatchLocal
+import AmVerif.Proofs.PatchObj
 /-
   C09 — "Incremental patches keep a materialized view equal to the document: For every mutating
   path (local edits, commit, rollback, apply_changes, merge, load_incremental, receiving a sync
@@ -8,194 +9,162 @@ import AmVerif.Proofs.PatchLocal
   including conflict flags and counter values."
 
   Model: `AmVerif.Model.PatchDiff` — `finalizeOp` (`resolve_action`, `increment_replacement`,
-  `TransactionInner::finalize_op`: the patch of a local operation), `regPatch` / `listPatch`
-  (`ValueState::map_process` / `list_flush` with `OpValueOption::{set, expose, increment}`: the patch
+  `finalize_op` and the re-put / conflict flag of `local_map_op` / `local_list_op`: the patch of a
+  local operation), `regPatch` / `listPatch` (`ValueState::map_process` / `list_flush` with
+  `OpValueOption::{set, expose, increment}`, `process_doc_op`, `do_increment`: the patch
   `apply_changes`, `merge`, `load_incremental` and sync emit for one register), applied by
-  `applyEvent` (= `hydrate::Map::apply` on the register's entry).  `load` with a patch log and
-  `isolate`/`integrate` go through `DiffIter` (`patch_to`, `log_current_state`): C08.
-  Tie: `patches` engine — a patch-logged `AutoCommit` is driven through every mutating path, after
+  `applyEvent` (= `hydrate::Map::apply` on the register's entry, `applyMap_event`).  `load` with a
+  patch log and `isolate`/`integrate` go through `DiffIter` (`patch_to`, `log_current_state`): C08.
+  Tie: `patches` engine — a patch-logged `AutoCommit` is driven through every mutating path; after
   every step the real `diff_incremental()` patches are applied by the real applier to a persistent
   view (direct oracle) and by the Lean `applyPatches` to `hview` of the previous heads
   (`crdt.patch.apply … C09`), and compared with the real `hydrate`.
 
-  The property is FALSE on the code as it stands: five register-level input classes (findings D16,
-  D17, D18, E1, E2) are refuted on concrete witnesses that replay on the real code; what holds is
-  proved with exactly those classes excluded.  `commit` and `rollback` emit no patches of their own
-  (the transaction's branch of the log is merged resp. dropped); they are covered by the run only.
+  History: on the tree as found the property was false in eight register-level classes (findings D16,
+  D17, D18, E1, E2, E3, G1, G3 — see the `fix:` commits in /repo and corpus/C09/*.replay); all are
+  repaired, the model follows the repaired code, and the former witnesses are kept as examples.
+  `regPatch` is proved for one incoming value operation per register (`_partial`: batches with
+  several operations on one register are checked exhaustively up to two incoming operations by
+  evaluation and by the run, not proved in general) and lifted to any number of registers of one
+  map.  `commit` and `rollback` emit no patches of their own (the transaction's branch of the log is
+  merged resp. dropped); they are covered by the run only.
 -/
 namespace AmVerif.Props.C09
 open AmVerif AmVerif.Crdt
 
 /-! ### local edits -/
 
-/-- C09 for a local `put` / `put_object` / `delete` / `increment` on a map key or list element — the
-    part that holds.  `ops` are the register's visible values (ascending id, winner last).  Unless
-    the call is a put of the winner's own scalar value on a conflicted register (`d16Class`) or an
-    increment on a register holding more than one counter (`d17Class`), the patch `finalize_op` logs
-    turns the register's entry (winner, conflict flag, counter value) into the entry after the
-    operation as the CRDT rules define it. -/
-theorem C09_finalizeOp_sound_partial (ops : List PVal) (a : LocalAct)
-    (hpre : ∀ n, a = .inc n → (ops.filter PVal.isCounter).length ≥ 1)
-    (h16 : d16Class ops a = false) (h17 : d17Class ops a = false) :
+/-- C09 for a local `put` / `put_object` / `delete` / `increment` on a map key or list element.
+    `ops` are the register's visible values (ascending id, winner last).  The patch logged for the
+    call turns the register's entry (winner, conflict flag, counter value) into the entry after the
+    operation as the CRDT rules define it.  No input class is excluded (an increment needs a counter
+    in the register, otherwise the call fails with `MissingCounter`). -/
+theorem C09_finalizeOp_sound (ops : List PVal) (a : LocalAct)
+    (hpre : ∀ n, a = .inc n → (ops.filter PVal.isCounter).length ≥ 1) :
     applyEvent (localBefore ops) (finalizeOp ops a) = .ok (localAfter ops a) :=
-  finalizeOp_sound ops a hpre h16 h17
+  finalizeOp_sound ops a hpre
 
-/-- non-vacuity: an increment on a conflicted register {str, counter 4} — the counter survives
-    alone, and the patch is a put of the materialised counter with the flag cleared. -/
+/-- non-vacuity, and the former witnesses D16 (put of the winner's value on a conflicted register:
+    corpus/C09/d16-noop-put-resolves-conflict.replay) and D17 (increment on two conflicting
+    counters: corpus/C09/d17-increment-on-conflicting-counters.replay) -/
 example :
-    let ops : List PVal := [.scalar (.str [120]), .scalar (.counter 4)]
-    d16Class ops (.inc 3) = false ∧ d17Class ops (.inc 3) = false ∧
-    (ops.filter PVal.isCounter).length ≥ 1 ∧
-    localBefore ops = some (true, .scalar (.counter 4)) ∧
-    finalizeOp ops (.inc 3) = .put (.scalar (.counter 7)) false false ∧
-    localAfter ops (.inc 3) = some (false, .scalar (.counter 7)) := by decide
-
-/-- C09 REFUTED for local edits as stated (finding D16): key `a` conflicted between `int 1` and the
-    winner `int 2`; `put(a, 2)` resolves the conflict (`ConflictResolution(Delete)`, a `noop` op for
-    `finalize_op`) and logs nothing: the view keeps `conflict = true`.
-    Replay: corpus/C09/d16-noop-put-resolves-conflict.replay. -/
-theorem C09_local_put_winner_value_false :
-    ¬ ∀ (ops : List PVal) (v : PVal),
-        applyEvent (localBefore ops) (finalizeOp ops (.put v)) = .ok (localAfter ops (.put v)) := by
-  intro h
-  have := h [.scalar (.int 1), .scalar (.int 2)] (.scalar (.int 2))
-  revert this
+    finalizeOp [.scalar (.str [120]), .scalar (.counter 4)] (.inc 3) = .put (.scalar (.counter 7)) false false ∧
+    -- D16: the winner is put again, unconflicted
+    finalizeOp [.scalar (.int 1), .scalar (.int 2)] (.put (.scalar (.int 2))) = .put (.scalar (.int 2)) false false ∧
+    localAfter [.scalar (.int 1), .scalar (.int 2)] (.put (.scalar (.int 2))) = some (false, .scalar (.int 2)) ∧
+    -- D17: the greater counter, incremented, still conflicted
+    finalizeOp [.scalar (.counter 1), .scalar (.counter 5)] (.inc 2) = .put (.scalar (.counter 7)) true false ∧
+    localAfter [.scalar (.counter 1), .scalar (.counter 5)] (.inc 2) = some (true, .scalar (.counter 7)) := by
   decide
-
-example :
-    let ops : List PVal := [.scalar (.int 1), .scalar (.int 2)]
-    d16Class ops (.put (.scalar (.int 2))) = true ∧
-    finalizeOp ops (.put (.scalar (.int 2))) = .nothing ∧
-    localBefore ops = some (true, .scalar (.int 2)) ∧
-    localAfter ops (.put (.scalar (.int 2))) = some (false, .scalar (.int 2)) := by decide
-
-/-- C09 REFUTED for local increments (finding D17): key `a` holds two conflicting counters 1 and 5
-    (5 wins); `increment(a, 2)` logs `PutMap{counter 3, conflict: false}` (`increment_replacement`
-    takes the FIRST counter) while the document shows counter 7, still conflicted.
-    Replay: corpus/C09/d17-increment-on-conflicting-counters.replay. -/
-theorem C09_local_increment_two_counters_false :
-    ¬ ∀ (ops : List PVal) (n : Int), (ops.filter PVal.isCounter).length ≥ 1 →
-        applyEvent (localBefore ops) (finalizeOp ops (.inc n)) = .ok (localAfter ops (.inc n)) := by
-  intro h
-  have := h [.scalar (.counter 1), .scalar (.counter 5)] 2 (by decide)
-  revert this
-  decide
-
-example :
-    let ops : List PVal := [.scalar (.counter 1), .scalar (.counter 5)]
-    d17Class ops (.inc 2) = true ∧
-    finalizeOp ops (.inc 2) = .put (.scalar (.counter 3)) false false ∧
-    localAfter ops (.inc 2) = some (true, .scalar (.counter 7)) := by decide
 
 /-! ### apply_changes, merge, load_incremental, sync: `map_process` -/
 
-/-- C09 for the ingestion paths, one register that was unconflicted (or absent) before and receives
-    one value operation — the part that holds.  `d` is the register's only pre-existing visible
-    operation, `del` tells whether the incoming batch deletes or overwrites it, `c` is the incoming
-    visible set/make operation.  Unless `c` has the SMALLER id and `d` is deleted by the batch
-    (finding E1), the patch `map_process` logs gives the right entry: the new value with
-    `conflict = (d survives)`, or a conflict flag on the surviving winner `d`. -/
+/-- C09 for the ingestion paths, one register that was unconflicted before and receives one value
+    operation (`_partial`: one incoming operation).  `d` is the register's only pre-existing visible
+    operation, `d.deleted` tells whether the incoming batch deletes or overwrites it, `c` is the
+    incoming visible set/make operation.  The patch `map_process` logs gives the right entry: the
+    new value with `conflict = (d survives)`, or a conflict flag on the surviving winner `d`. -/
 theorem C09_regPatch_single_sound_partial (d : DocOp) (cid : OpId) (cv : PVal)
-    (hne : d.id ≠ cid) (hlt : d.id.lt cid = true ∨ cid.lt d.id = true)
-    (hE1 : ¬ (cid.lt d.id = true ∧ d.deleted = true)) :
-    let doc := foldDoc [d]
-    applyEvent (docEntryBefore [d]) (regPatch doc (foldChange doc [.value cid cv])) =
+    (hlt : d.id.lt cid = true ∨ cid.lt d.id = true) :
+    let st := foldChange (foldDoc [d]) [.value cid cv]
+    applyEvent (docEntryBefore [d]) (regPatch st.1 st.2) =
       .ok (if d.deleted then some (false, cv)
            else if d.id.lt cid then some (true, cv) else some (true, d.val)) := by
-  intro doc
-  have hdoc : doc = some ⟨d.id, d.val, d.deleted, false, false⟩ := by
-    simp [doc, foldDoc, ovSet]
-  have hchg : foldChange doc [.value cid cv] = some ⟨cid, cv, false, false, false⟩ := by
-    simp [foldChange, stepChange, ovSet]
-  rw [hchg, hdoc]
+  intro st
+  have hst : st = (some ⟨d.id, d.val, d.deleted, false, false⟩, some ⟨cid, cv, false, false, false⟩) := by
+    simp [st, foldChange, stepChange, foldDoc, ovSet]
+  rw [hst]
   rcases hlt with hlt | hlt
   · cases hdel : d.deleted <;> simp [regPatch, hlt, hdel, applyEvent, docEntryBefore]
-  · have hnot : d.id.lt cid = false := by
-      cases h : d.id.lt cid with
-      | false => rfl
-      | true =>
-        -- both `d.id < cid` and `cid < d.id` cannot hold
-        exfalso
-        simp only [OpId.lt, Bool.or_eq_true, decide_eq_true_eq, Bool.and_eq_true, beq_iff_eq] at h hlt
-        rcases h with h | ⟨h1, h2⟩ <;> rcases hlt with hl | ⟨hl1, hl2⟩
-        · omega
-        · omega
-        · omega
-        · -- equal counters: the actors would be strictly ordered both ways
-          have : ∀ (a b : Bytes), bytesLt a b = true → bytesLt b a = true → False := by
-            intro a
-            induction a with
-            | nil => intro b h1 h2; cases b <;> simp [bytesLt] at h1 h2
-            | cons x xs ih =>
-              intro b h1 h2
-              cases b with
-              | nil => simp [bytesLt] at h1
-              | cons y ys =>
-                simp only [bytesLt, Bool.or_eq_true, decide_eq_true_eq, Bool.and_eq_true, beq_iff_eq] at h1 h2
-                rcases h1 with h1 | ⟨e1, h1⟩ <;> rcases h2 with h2 | ⟨e2, h2⟩
-                · exact absurd h1 (by intro hh; exact (UInt8.lt_irrefl x) (UInt8.lt_trans hh h2))
-                · subst e2; exact UInt8.lt_irrefl _ h1
-                · subst e1; exact UInt8.lt_irrefl _ h2
-                · exact ih ys h1 h2
-          exact this _ _ h2 hl2
-    have hdel : d.deleted = false := by
-      cases h : d.deleted with
-      | false => rfl
-      | true => exact absurd ⟨hlt, h⟩ hE1
-    simp [regPatch, hlt, hnot, hdel, applyEvent, docEntryBefore]
+  · cases hdel : d.deleted with
+    | true => simp [regPatch, hdel, applyEvent, docEntryBefore]
+    | false =>
+      have hnot : d.id.lt cid = false := by
+        cases h : d.id.lt cid with
+        | false => rfl
+        | true =>
+          exfalso
+          have hasym : ∀ (a b : Bytes), bytesLt a b = true → bytesLt b a = true → False :=
+            fun a b h1 h2 => bytesLt_asymm h1 h2
+          simp only [OpId.lt, Bool.or_eq_true, decide_eq_true_eq, Bool.and_eq_true, beq_iff_eq] at h hlt
+          rcases h with h | ⟨h1, h2⟩ <;> rcases hlt with hl | ⟨hl1, hl2⟩
+          · omega
+          · omega
+          · omega
+          · exact hasym _ _ h2 hl2
+      simp [regPatch, hlt, hnot, hdel, applyEvent, docEntryBefore]
 
-/-- non-vacuity: a concurrent put with a greater id on a surviving value → conflicted put -/
+/-- the former witnesses of the ingestion paths, now right (corpus/C09/e1-…, d18-…, e2-…, g1-…,
+    g3-….replay): E1 — a concurrent lower put arriving with a delete of the winner; D18 / E2 — a
+    remote increment naming a counter and a non-counter; G1 — an increment of the winner arriving
+    with a concurrent lower value; G3 — a counter with earlier increments exposed by a delete. -/
 example :
-    let d : DocOp := ⟨⟨1, [1]⟩, .scalar (.int 1), false⟩
-    let doc := foldDoc [d]
-    regPatch doc (foldChange doc [.value ⟨1, [2]⟩ (.scalar (.int 2))]) = .put (.scalar (.int 2)) true false := by
+    -- E1: the incoming value is put (it used to be a `Conflict` patch on the deleted value)
+    (let st := foldChange (foldDoc [⟨⟨1, [2]⟩, .scalar (.int 1), true⟩]) [.value ⟨1, [1]⟩ (.scalar (.int 2))]
+     regPatch st.1 st.2) = .put (.scalar (.int 2)) false false ∧
+    -- D18: counter 1@01 and winner int 7 (1@02), increment naming both: a put of the counter
+    (let st := foldChange (foldDoc [⟨⟨1, [1]⟩, .scalar (.counter 1), false⟩, ⟨⟨1, [2]⟩, .scalar (.int 7), true⟩])
+        [.inc [⟨1, [1]⟩, ⟨1, [2]⟩] 2]
+     regPatch st.1 st.2) = .put (.scalar (.counter 3)) false false ∧
+    -- E2: the counter is the winner: the put clears the flag
+    (let st := foldChange (foldDoc [⟨⟨1, [1]⟩, .scalar (.int 7), true⟩, ⟨⟨1, [2]⟩, .scalar (.counter 1), false⟩])
+        [.inc [⟨1, [1]⟩, ⟨1, [2]⟩] 2]
+     regPatch st.1 st.2) = .put (.scalar (.counter 3)) false false ∧
+    -- G1: winner counter 1 (1@22), batch = lower put of counter 0 (1@11) and increment -1 of the winner
+    (let st := foldChange (foldDoc [⟨⟨1, [0x22]⟩, .scalar (.counter 1), false⟩])
+        [.value ⟨1, [0x11]⟩ (.scalar (.counter 0)), .inc [⟨1, [0x22]⟩] (-1)]
+     regPatch st.1 st.2) = .put (.scalar (.counter 0)) true true := by
   decide
 
-/-- C09 REFUTED for `apply_changes` (finding E1, values included): key `a` holds `int 1` (1@02);
-    the batch holds a concurrent `put(a, 2)` with the smaller id 1@01 and a delete of 1@02.
-    `map_process` takes the branch `c.id < d.id` without looking at `d.deleted` and logs a
-    `Conflict` patch: the view shows `int 1` conflicted, the document shows `int 2` unconflicted.
-    Replay: corpus/C09/e1-flag-instead-of-put.replay. -/
-theorem C09_regPatch_deleted_winner_false :
-    let d : DocOp := ⟨⟨1, [2]⟩, .scalar (.int 1), true⟩
-    let doc := foldDoc [d]
-    let ev := regPatch doc (foldChange doc [.value ⟨1, [1]⟩ (.scalar (.int 2))])
-    ev = .flag ∧
-    applyEvent (docEntryBefore [d]) ev = .ok (some (true, .scalar (.int 1))) ∧
-    -- the document afterwards: only the incoming value is left
-    (some (false, PVal.scalar (.int 2)) : REntry) ≠ some (true, .scalar (.int 1)) := by
-  decide
+/-! ### several registers of one map -/
 
-/-- C09 and C37 REFUTED for `apply_changes` (finding D18): key `a` conflicted between a counter
-    (1@01) and the winner `int 7` (1@02); an incoming increment names both as predecessors (so it
-    deletes `int 7` and increments the counter).  `map_process` logs `Increment 2`, addressed to a
-    view entry that holds `int 7`: `apply_patches` answers `BadIncrement`.
-    Replay: corpus/C09/d18-bad-increment.replay. -/
-theorem C09_regPatch_bad_increment :
-    let ds : List DocOp := [⟨⟨1, [1]⟩, .scalar (.counter 1), false⟩, ⟨⟨1, [2]⟩, .scalar (.int 7), true⟩]
-    let doc := foldDoc ds
-    let ev := regPatch doc (foldChange doc [.inc [⟨1, [1]⟩, ⟨1, [2]⟩] 2])
-    ev = .inc 2 ∧ docEntryBefore ds = some (true, .scalar (.int 7)) ∧
-    applyEvent (docEntryBefore ds) ev = .err .badIncrement := by
-  decide
+/-- C09 for a batch touching several registers of one map (`apply_changes`, `merge`,
+    `load_incremental`, sync; also a local transaction): the lifting.  `keys` are the touched keys,
+    `evs k` the event logged for key `k` (by `map_process` or `finalize_op`).  If every touched
+    register's event is right for that register — applied to the view's entry of `k` it gives
+    `after k` — then the patches of the whole batch, applied in key order by `hydrate::Map::apply`,
+    succeed, bring every touched key to its new entry and leave every other key of the view alone. -/
+theorem C09_patches_sound_mapBatch (keys : List Bytes) (hnd : keys.Nodup) (evs : Bytes → RegEvent)
+    (after : Bytes → REntry) (es : List (Bytes × Bool × HView))
+    (hreg : ∀ k ∈ keys, applyEvent (shallowEntry es k) (evs k) = .ok (after k)) :
+    ∃ es', applyActions es (keys.flatMap (fun k => eventActions k (evs k))) = .ok es' ∧
+      (∀ k ∈ keys, shallowEntry es' k = (after k).norm) ∧
+      (∀ k, k ∉ keys → mapGet k es' = mapGet k es) :=
+  applyActions_keys keys hnd evs after es hreg
 
-/-- C09 REFUTED for `apply_changes` (finding E2): as D18 but the counter (1@02) is the winner and
-    `int 7` (1@01) the loser: the `Increment` patch applies, but the conflict it resolved stays
-    flagged in the view.  Replay: corpus/C09/e2-increment-keeps-conflict-flag.replay. -/
-theorem C09_regPatch_increment_stale_flag :
-    let ds : List DocOp := [⟨⟨1, [1]⟩, .scalar (.int 7), true⟩, ⟨⟨1, [2]⟩, .scalar (.counter 1), false⟩]
-    let doc := foldDoc ds
-    let ev := regPatch doc (foldChange doc [.inc [⟨1, [1]⟩, ⟨1, [2]⟩] 2])
-    ev = .inc 2 ∧
-    applyEvent (docEntryBefore ds) ev = .ok (some (true, .scalar (.counter 3))) ∧
-    -- the document afterwards: the counter alone
-    (some (false, PVal.scalar (.counter 3)) : REntry) ≠ some (true, .scalar (.counter 3)) := by
-  decide
+/-- … instantiated with the proved register theorems: a batch that puts one new value on each of
+    several unconflicted keys. -/
+theorem C09_patches_sound_mapBatch_single (keys : List Bytes) (hnd : keys.Nodup)
+    (d : Bytes → DocOp) (cid : Bytes → OpId) (cv : Bytes → PVal)
+    (hlt : ∀ k ∈ keys, (d k).id.lt (cid k) = true ∨ (cid k).lt (d k).id = true)
+    (es : List (Bytes × Bool × HView))
+    (hview : ∀ k ∈ keys, shallowEntry es k = docEntryBefore [d k]) :
+    let ev := fun k => let st := foldChange (foldDoc [d k]) [.value (cid k) (cv k)]; regPatch st.1 st.2
+    let after : Bytes → REntry := fun k =>
+      if (d k).deleted then some (false, cv k)
+      else if (d k).id.lt (cid k) then some (true, cv k) else some (true, (d k).val)
+    ∃ es', applyActions es (keys.flatMap (fun k => eventActions k (ev k))) = .ok es' ∧
+      (∀ k ∈ keys, shallowEntry es' k = (after k).norm) ∧
+      (∀ k, k ∉ keys → mapGet k es' = mapGet k es) := by
+  intro ev after
+  apply applyActions_keys keys hnd ev after es
+  intro k hk
+  rw [hview k hk]
+  exact C09_regPatch_single_sound_partial (d k) (cid k) (cv k) (hlt k hk)
+
+/-- non-vacuity: keys `a`, `b` holding 1 and 2; the batch overwrites `a` with 5 (the old value is
+    deleted) and puts a concurrent greater 6 on `b`: the view becomes {a: 5, b: 6 (conflicted)}. -/
+example :
+    let es : List (Bytes × Bool × HView) := [([97], false, .scalar (.int 1)), ([98], false, .scalar (.int 2))]
+    applyActions es (eventActions [97] (.put (.scalar (.int 5)) false false) ++
+        eventActions [98] (.put (.scalar (.int 6)) true false)) =
+      .ok [([97], false, .scalar (.int 5)), ([98], true, .scalar (.int 6))] := by
+  rfl
 
 /-! ### the applier accepts what the library produced (clause of C37) -/
 
 /-- "Values the library itself produced, such as patches passed to `apply_patches`, are always
-    accepted" — for maps the applier at least never panics, whatever the patch. -/
+    accepted" — for maps the applier never panics, whatever the patch … -/
 theorem C37_applyMap_no_panic (es : List (Bytes × Bool × HView)) (a : PatchAction) :
     (applyMap es a).isPanic = false :=
   applyMap_no_panic es a
@@ -203,11 +172,10 @@ theorem C37_applyMap_no_panic (es : List (Bytes × Bool × HView)) (a : PatchAct
 example : (applyMap [([97], false, .scalar (.int 1))] (.increment (.key [97]) 2)) = .err .badIncrement := by
   rfl
 
-/-- … REFUTED for text and lists (finding D13): any `Mark` patch, which `diff`, `diff_incremental`
-    and the ingestion paths produce for a text whose marks change, makes `apply_patches` panic
-    (`todo!()`, hydrate/text.rs:58 and hydrate/list.rs:93).
-    Replay: corpus/C09/d13-mark-todo.replay. -/
-theorem C37_apply_mark_panics (e : Enc) (us : List Nat) (obj : ObjId) :
-    applyPatch e (.text us) ⟨obj, [], .mark⟩ = .panic .todo := rfl
+/-- … and a `Mark` patch, which `diff`, `diff_incremental` and the ingestion paths produce for a text
+    whose marks change, is accepted (former finding D13: `todo!()`).
+    corpus/C09/d13-mark-todo.replay. -/
+theorem C37_apply_mark_accepted (e : Enc) (us : List Nat) (obj : ObjId) :
+    applyPatch e (.text us) ⟨obj, [], .mark⟩ = .ok (.text us) := rfl
 
 end AmVerif.Props.C09
